@@ -75,6 +75,20 @@ chk("C09", "exploration",
     "Race freedom is claimed for the operations and interleavings TSan observed (happens-before generalises over schedules, not over code paths); linearizability only for the short histories searched.",
     "ThreadSanitizer + offline linearizability checker over recorded histories", "DESIGN.md section 4 / C09", "cache_conc")
 
+chk("C12", "exploration",
+    "Part lists with adversarial contents (every proper prefix of the delimiter, CR/LF/dash runs, delimiter minus its last byte) are encoded independently and decoded by impl::multipart_parser through the request's "
+    "consume loop under every 1-cut and 2-cut of short bodies, fixed chunk sizes and random cuts around delimiters, with spills to temporary files that must disappear; truncated, extended and unclosed bodies "
+    "must be refused; every mutated body must give the same outcome under any chunking (also coverage-guided in thorough). End-to-end limits/filters go through the server harness.",
+    "The in-process loop mirrors request::on_content_progress; boundaries are RFC 2046 bchars.",
+    "runtime oracle: independent encoder + metamorphic chunking relation under ASan/UBSan, libFuzzer", "DESIGN.md section 4 / C12", "mp_mon")
+
+chk("C20", "exploration",
+    "Generated application trees with overlapping patterns, capture-group selections, method filters and colliding mount prefixes are driven in-process; for every URL (in, near, outside the pattern languages) and method "
+    "the handler that ran and its arguments must equal an independent std::regex model's first full match in registration order, else 404; url_mapper URLs for absolute/relative/'..' keys are routed back; "
+    "mount_point::match is compared with the model on host/script/path triples.",
+    "Pattern family restricted to constructs on which ECMAScript std::regex and PCRE agree; pool-level mount order over real front-ends is exercised by the server harness.",
+    "runtime differential oracle (independent regex engine + routing model) under ASan/UBSan", "DESIGN.md section 4 / C20", "route_mon")
+
 ENGINES = [
     dict(name="check", path="check", kind_free_text="python3 driver: builds flavors from /repo's working tree, runs monitors in parallel, known-findings matching, evidence"),
     dict(name="utf_mon", path="harness/utf_mon.cpp", serves_properties=["C14"], kind_free_text="in-process monitor, reference decoder oracle"),
@@ -82,6 +96,8 @@ ENGINES = [
     dict(name="json_mon", path="harness/json_mon.cpp", serves_properties=["C11"], kind_free_text="in-process monitor; libFuzzer target json_fuzz"),
     dict(name="cache_mon", path="harness/cache_mon.cpp", serves_properties=["C07", "C08"], kind_free_text="in-process monitor: reference model, eviction relation, dump hook, virtual clock"),
     dict(name="cache_conc", path="harness/cache_conc.cpp", serves_properties=["C09"], kind_free_text="multi-threaded history recorder + L1 conditions + WGL linearizability checker (tsan and asan flavors)"),
+    dict(name="mp_mon", path="harness/mp_mon.cpp", serves_properties=["C12"], kind_free_text="in-process multipart monitor; libFuzzer target mp_fuzz"),
+    dict(name="route_mon", path="harness/route_mon.cpp", serves_properties=["C20"], kind_free_text="in-process routing monitor with std::regex model"),
     dict(name="codec_mon", path="harness/codec_mon.cpp", serves_properties=["C15"], kind_free_text="in-process monitor, inverse-function oracles"),
     dict(name="crypto_mon", path="harness/crypto_mon.cpp", serves_properties=["C16"], kind_free_text="in-process differential monitor against libgcrypt"),
     dict(name="ser_mon", path="harness/ser_mon.cpp", serves_properties=["C19"], kind_free_text="in-process monitor, shadow reader; also libFuzzer target ser_fuzz"),
